@@ -75,6 +75,7 @@ type generation struct {
 	t0      int64 // dial.exit
 	endSeq  int   // first event after which the generation is torn down (0 = never)
 	tEnd    int64
+	doomT   int64 // instant at which its teardown was triggered by a link-down event (0 = never): from then on it stops serving
 	writes  []*write
 	rxs     []*rx
 }
@@ -140,6 +141,12 @@ func analyse(ev []verifsim.Event) *history {
 		case "task.exit":
 			if ifn := taskIface(e.S); ifn != "" {
 				endGen(e.Node, ifn, e.Seq, e.T)
+			}
+		case "act.link":
+			if e.S == "down" && e.Err == "" {
+				if g := cur[fmt.Sprintf("%d|%s", e.Node, e.If)]; g != nil && g.doomT == 0 {
+					g.doomT = e.T
+				}
 			}
 		case "act.endrun":
 			h.endT, h.endSeq = e.T, e.Seq
